@@ -35,5 +35,32 @@ if '<!-- BEGIN GENERATED' in s:
     s = re.sub(r'<!-- BEGIN GENERATED.*?<!-- END GENERATED -->\n', lambda m: block, s, flags=re.S)
 else:
     s = s.replace('## Appendix A — formats fixed now', block + '\n## Appendix A — formats fixed now')
+# ---- generated findings table (6.1) and fix list (9.1)
+kf = json.load(open(f'{V}/known_findings.json'))
+ents = kf if isinstance(kf, list) else kf['findings']
+frows = ['| id | property | what fails (replayed on the implementation) | disposition |', '|---|---|---|---|']
+for e in ents:
+    disp = ('**fixed** ' + e.get('commit', '?') + ' (regression probe `' + e.get('probe_fn', '-') + '`)') if e['status'] == 'fixed' else 'known finding; signature: ' + e.get('signature', {}).get('when', '')[:160]
+    frows.append('| %s | %s | %s | %s |' % (e['id'], e['property'], e['what'].replace('|', '\\|')[:260], disp.replace('|', '\\|')))
+fixes = subprocess.run(['git', '-C', '/repo', 'log', '--author=builder', '--grep=^fix:', '--format=* `%h %s`'], capture_output=True, text=True).stdout.strip()
+nfix = len(fixes.splitlines())
+b61 = ('<!-- BEGIN FINDINGS -->\n\nAll findings, from `known_findings.json` (%d fixed, %d known):\n\n' % (sum(e['status'] == 'fixed' for e in ents), sum(e['status'] == 'known' for e in ents))
+       + '\n'.join(frows) + '\n\n<!-- END FINDINGS -->\n')
+b91 = '<!-- BEGIN FIXLIST -->\n\nThe %d `fix:` commits in /repo, newest first:\n\n%s\n\n<!-- END FIXLIST -->\n' % (nfix, fixes)
+arows = ['| property | theorems | closed under the global context | theorems depending on axioms (all declared by the Coq standard library) |', '|---|---|---|---|']
+for f in sorted(glob.glob(f'{V}/evidence/C*.json')):
+    ev = json.load(open(f))
+    th = ev.get('coverage', {}).get('theorems', [])
+    withax = [t for t in th if t.get('axioms')]
+    allax = sorted({a for t in withax for a in t['axioms']})
+    arows.append('| %s | %d | %d | %s |' % (ev['property_id'], len(th), len(th) - len(withax),
+                 ('%d: %s — axioms: %s' % (len(withax), ', '.join('`%s`' % t['name'] for t in withax), ', '.join('`%s`' % a for a in allax))) if withax else 'none'))
+b7 = ('<!-- BEGIN AXIOMS -->\n\nAs built, per property (from the `Print Assumptions` output captured into `evidence/Cxx.json` on every run):\n\n'
+      + '\n'.join(arows) + '\n\n<!-- END AXIOMS -->\n')
+for tag, blk in (('FINDINGS', b61), ('FIXLIST', b91), ('AXIOMS', b7)):
+    if f'<!-- BEGIN {tag} -->' in s:
+        s = re.sub(r'<!-- BEGIN %s -->.*?<!-- END %s -->\n' % (tag, tag), lambda m: blk, s, flags=re.S)
+    else:
+        print('marker missing:', tag)
 open(f'{V}/DESIGN.md', 'w').write(s)
 print('DESIGN.md refreshed:', len(seeded), 'seeded changes')
